@@ -2,7 +2,7 @@
 encoder (spec/flow.py); and wire -> real decoder against the reference component walk."""
 import random
 
-from .registry import bounded, replayer
+from .registry import bounded, replayer, region
 
 NUM_OPS = [('=', 0x01), ('>', 0x02), ('<', 0x04), ('>=', 0x03), ('<=', 0x05), ('!=', 0x06)]
 # keyword, component type, value range, allowed widths
@@ -31,7 +31,7 @@ def gen_rule(rnd, ipv6, nterms=None, big=False):
     if ipv6 or rnd.random() < 0.7:  # the text parser learns the family from a prefix: IPv6 rules always carry one
         if ipv6:
             bits = rnd.choice([0, 32, 48, 64, 128])
-            off = rnd.choice([0, 0, 16]) if bits >= 32 else 0
+            off = rnd.choice([0, 0, 16, 3, 31]) if bits >= 32 else 0
             addr = '2001:db8:1:2::' if bits < 128 else '2001:db8::1'
             text.append(f'destination {addr}/{bits}/{off};' if off else f'destination {addr}/{bits};')
             comps.append((1, bits, off, socket.inet_pton(socket.AF_INET6, addr)))
@@ -152,6 +152,18 @@ def decode_case(wire, ipv6, vpn):
         if canonical:
             return {'what': 'decoded rule re-encodes to different bytes', 'wire': wire.hex(), 'ipv6': ipv6, 'vpn': vpn}
     return None
+
+
+@region('C16-ipv6-prefix-offset')
+def ipv6_offset_region(failure):
+    """recorded defect: an IPv6 source / destination prefix with a NON-ZERO offset is sent (and read) as the whole prefix
+    after the offset octet; RFC 8956 3.1 defines the pattern as the (length - offset) bits which follow the skipped ones.
+    Only rules whose text holds a prefix `<address>/<length>/<offset>` with offset > 0, only the byte comparison with the
+    reference encoding; offset 0 -- every shipped example -- is unaffected and stays enforced."""
+    import re as _re
+
+    text = failure.get('input', {}).get('match', '')
+    return failure.get('what', '').startswith('wire bytes differ from the RFC 8955 reference encoding') and any(int(m) > 0 for m in _re.findall(r'(?:source|destination) [0-9a-f:]+/\d+/(\d+);', text))
 
 
 @bounded('C16', 'text-to-wire')
